@@ -16,21 +16,23 @@ def run(chk, replay=None):
     cfgs = ["MC_Heegner.cfg", "MC_KnownH.cfg", "MC_Count.cfg", "MC_Group.cfg", "MC_Witness.cfg"]
     if thorough:
         cfgs += ["MC_GroupBig.cfg", "MC_WitnessBig.cfg"]
-    for cfg in cfgs:
+    for cfg in ([] if replay else cfgs):     # a replay only re-runs the recorded case
         r = core.model_check("classgroup/ClassGroupMC.tla", cfg, workers=4, timeout=1700)
         chk.add_mc(r)
     # (M) the relation store (spanning tree of large primes) and (G) its histories replayed into the real CRelationSet
-    for cfg in ["MC_CRelStore.cfg"] + (["MC_CRelStoreBig.cfg"] if thorough else []):
-        chk.add_mc(core.model_check("classgroup/CRelStore.tla", cfg, workers=4, timeout=1700))
-    hists = os.path.join(w, "hists.ndjson")
-    nh, r = core.gen_shapes("classgroup/CRelStore.tla", "CRelStoreReplayThorough.cfg" if thorough else "CRelStoreReplay.cfg",
-                            hists, head="REPLAY")
-    chk.add_mc(r)
-    strace = os.path.join(w, "store.ndjson")
-    core.run_driver(["c18", "--mode", "store", "--hists", hists], strace)
-    sres = core.validate_trace("classgroup/CRelStoreTrace.tla", "CRelStoreTrace.cfg", strace, timeout=1200)
-    chk.add_tv(sres)
-    chk.cov["store_histories_replayed"] = nh
+    if not replay:
+        for cfg in ["MC_CRelStore.cfg"] + (["MC_CRelStoreBig.cfg"] if thorough else []):
+            chk.add_mc(core.model_check("classgroup/CRelStore.tla", cfg, workers=4, timeout=1700))
+        hists = os.path.join(w, "hists.ndjson")
+        nh, r = core.gen_shapes("classgroup/CRelStore.tla", "CRelStoreReplayThorough.cfg" if thorough else "CRelStoreReplay.cfg",
+                                hists, head="REPLAY")
+        chk.add_mc(r)
+        strace = os.path.join(w, "store.ndjson")
+        core.run_driver(["c18", "--mode", "store", "--hists", hists], strace)
+        sres = core.validate_trace("classgroup/CRelStoreTrace.tla", "CRelStoreTrace.cfg", strace, timeout=1200, tag="CRelStoreTrace")
+        chk.add_tv(sres)
+        chk.cov["store_histories_replayed"] = nh
+        chk.cov["ops_store"] = len(core.read_ndjson(strace))
     # (I) input space: every fundamental |D| < 3000 and (bit size, residue class) shapes
     shapes = os.path.join(w, "shapes.ndjson")
     nshapes, r = core.gen_shapes("classgroup/ClassGroupShapes.tla",
